@@ -318,6 +318,18 @@ class Impl:
     def op_dump_pt(self, p): return pd(self.o[p])
     def op_dump_ex(self, e): return ed(self.o[e])
     def op_dump_cons(self, c): return show_cons(self.o[c])
+    def op_dump_finish(self, x):
+        from PEPit.tools.dict_operations import symmetrize_dict, prune_dict
+        sym = symmetrize_dict(self.o[x].decomposition_dict)
+        d = prune_dict(sym)
+        const = d[1] if 1 in d else 0.
+        n0 = Constraint.counter
+        printed = sum(abs(v) for k, v in d.items() if k != 1)          # literally the comprehension of check_feasibility
+        Constraint.counter = n0                                         # (`key != 1` on Expression keys creates Constraint objects)
+        full = sum(abs(v) for k, v in d.items() if not (isinstance(k, int) and k == 1))
+        class _E: pass
+        t = _E(); t.decomposition_dict = sym
+        return "sym=%s stats={const:%s,printed:%s,all:%s}" % (ed(t), showrat(const), showrat(printed), showrat(full))
     def op_dump_counters(self):
         return "nP=%d nE=%d nF=%d nPsd=%d nPart=%d" % (Point.counter, Expression.counter, Function.counter, PSDMatrix.counter, BlockPartition.counter)
 
@@ -592,6 +604,7 @@ def gen_tree(seed):
             a = rnd.choice(p.E); c = p.newc(); p.emit("%s %s %s %s" % (rnd.choice(["cons.lec", "cons.gec", "cons.eqc"]), c, a, rnd.choice(TW))); p.emit("dump.cons %s" % c)
     for x in p.P: p.emit("dump.pt %s" % x)
     for x in p.E: p.emit("dump.ex %s" % x)
+    for x in rnd.sample(p.E, min(3, len(p.E))): p.emit("dump.finish %s" % x)     # symmetrize / prune / constant / remaining terms
     p.emit("dump.counters")
     return p.lines
 
